@@ -1,0 +1,15 @@
+//go:build verif
+
+package chain
+
+// VerifHook, when set by a verification harness, is called with the name of a Manager method
+// right after that method has acquired m.mu, on the calling goroutine. It lets a harness order
+// concurrent calls by the order in which they entered their critical sections. It must not call
+// back into the Manager.
+var VerifHook func(method string)
+
+func verifHook(method string) {
+	if h := VerifHook; h != nil {
+		h(method)
+	}
+}
